@@ -53,10 +53,13 @@ class _MaskedUfunc(object):
         if w is not True and kw.get("out") is None and len(args) == self._uf.nin and self._uf.nout == 1:
             try:
                 kw2 = {k_: v for k_, v in kw.items() if k_ not in ("where", "out")}
-                probe = self._uf(*args, **kw2)                    # full evaluation: only its shape and dtype are used
-                if isinstance(probe, _np.ndarray) and probe.ndim > 0:
+                arrs = [_np.asarray(a_) for a_ in args]
+                shape = _np.broadcast_shapes(*([a_.shape for a_ in arrs] + [_np.shape(w)]))
+                if len(shape) > 0 and all(a_.size > 0 for a_ in arrs):
+                    # the result's dtype from a one-element evaluation (cheap), its shape from broadcasting
+                    probe = self._uf(*[a_.reshape(-1)[:1] for a_ in arrs], **kw2)
                     STATS["empty_calls"] += 1
-                    out = _poison(_np.empty_like(probe))
+                    out = _poison(_np.empty(shape, dtype=probe.dtype))
                     return self._uf(*args, out=out, **{k_: v for k_, v in kw.items() if k_ != "out"})
             except Exception:
                 pass
